@@ -218,6 +218,11 @@ func (s *Sim) runFinale() {
 		}
 	}
 	restartAll()
+	if s.joiner > 0 {
+		s.startJoiner()
+		synctest.Wait()
+		s.collect()
+	}
 	if s.sc.Variant == "clean-restart" {
 		// the simplest crash there is: every node is killed while idle, after
 		// everything was acknowledged and replicated, and started again
